@@ -156,8 +156,9 @@ func (vm *VM) convertPanic(msg any) error {
 			break
 		}
 		fallthrough
-	case OpCallNative, OpReturn:
+	case OpCallNative, OpReturn, OpShow:
 		// OpReturn: a deferred native function called by nextCall.
+		// OpShow: a String, HTML, ... method of the shown value.
 		switch msg := msg.(type) {
 		case runtimeError:
 			break
